@@ -52,12 +52,16 @@ func prepareFSReplay(k *Kernel) error {
 	return nil
 }
 
-func replayFS(k *Kernel, crashAt, faultAt int, short bool) (*fsObs, error) {
+func replayFS(k *Kernel, crashAt, faultAt int, short bool, prior ...bool) (*fsObs, error) {
 	sw := "0"
 	if short {
 		sw = "1"
 	}
-	env := []string{"VERIF_FS_REPLAY=1", fmt.Sprintf("VERIF_CRASH_AT_R=%d", crashAt), fmt.Sprintf("VERIF_FAULT_AT_R=%d", faultAt), "VERIF_SHORT_WRITE_R=" + sw}
+	pr := "0"
+	if len(prior) > 0 && prior[0] {
+		pr = "1"
+	}
+	env := []string{"VERIF_FS_REPLAY=1", "VERIF_PRIOR_R=" + pr, fmt.Sprintf("VERIF_CRASH_AT_R=%d", crashAt), fmt.Sprintf("VERIF_FAULT_AT_R=%d", faultAt), "VERIF_SHORT_WRITE_R=" + sw}
 	out, err := load.Run(k.S.Repo, true, 3*time.Minute, env, "go", "test", "-vet=off", "-count=1", "-run", "^TestVerifFSReplay$", "-v", "./internal/llmsetup")
 	for _, l := range strings.Split(string(out), "\n") {
 		if i := strings.Index(l, "VERIF-FS-OBS "); i >= 0 {
@@ -132,19 +136,21 @@ func checkC15(c *Ctx) error {
 		art          map[string]any
 		crash, fault int
 		short        bool
+		prior        bool
 	}
 	var pend []pendingV
 	cur := struct {
 		crash, fault int
 		short        bool
-	}{-1, -1, false}
+		prior        bool
+	}{-1, -1, false, false}
 	violation := func(sig map[string]string, art map[string]any) {
 		key := sigString(sig)
 		if reported[key] {
 			return
 		}
 		reported[key] = true
-		pend = append(pend, pendingV{sig, art, cur.crash, cur.fault, cur.short})
+		pend = append(pend, pendingV{sig, art, cur.crash, cur.fault, cur.short, cur.prior})
 	}
 	type valPoint struct {
 		crash, fault int
@@ -155,18 +161,33 @@ func checkC15(c *Ctx) error {
 	}
 	var valPoints []valPoint
 	for _, ai := range agents {
-		for baseClass := 0; baseClass <= 1; baseClass++ {
-			ai, baseClass := ai, baseClass
+		for baseState := 0; baseState <= 2; baseState++ {
+			// 0: base absent, 1: base directory exists, 2: base holds a previous installation
+			// (older content, mode 0644)
+			baseClass, prior := baseState, false
+			if baseState == 2 {
+				baseClass, prior = 1, true
+			}
+			ai, baseClass, prior := ai, baseClass, prior
+			priorContent := map[string]string{}
 			results := k.E.Run(fn, func(ps *symx.PathState) []any {
 				m := symx.NewFSModel(ps, "fault", srcRoot)
 				m.BaseClass = baseClass
 				m.Cwd, m.Home = "/cwd", "/home/u"
+				if prior {
+					for _, rel := range tree.rel {
+						data, _ := os.ReadFile(filepath.Join(srcRoot, "skills/kessoku-di", rel))
+						p := filepath.Join(base, "kessoku-di", rel)
+						m.SetPrior(p, append([]byte("old "), data...), 0o644)
+						priorContent[rel] = m.Prior[p].Content
+					}
+				}
 				ps.User = m
 				return []any{symx.IntArg(ai), base, false}
 			}, func(ps *symx.PathState, r *symx.PathResult) {
 				m := ps.User.(*symx.FSModel)
 				paths++
-				cur.crash, cur.fault, cur.short = -1, m.Faulted, m.ShortWrite
+				cur.crash, cur.fault, cur.short, cur.prior = -1, m.Faulted, m.ShortWrite, prior
 				if m.Crashed {
 					cur.crash = m.CrashStep
 				}
@@ -182,17 +203,35 @@ func checkC15(c *Ctx) error {
 					}
 					return out
 				}
-				// destination files: untouched, or complete with final permissions
+				// destination files: untouched (absent, or the previous installation's file
+				// intact), or complete with final permissions
+				stateOf := func(rel string) string {
+					n := m.Effective(dest(rel))
+					switch {
+					case n == nil:
+						return "absent"
+					case prior && n.Content == priorContent[rel] && n.Mode == 0o644:
+						return "previous"
+					case n.Content == "full:"+tree.hash[rel] && n.Mode == 0o644:
+						return "new"
+					}
+					return strings.SplitN(n.Content, ":", 2)[0] + fmt.Sprintf("/%o", n.Mode)
+				}
 				checkDests := func(when string) {
 					for _, rel := range tree.rel {
 						oblig++
-						n := m.Nodes[dest(rel)]
-						if n == nil {
-							continue
-						}
-						if n.Content != "full:"+tree.hash[rel] || n.Mode != 0o644 {
-							violation(map[string]string{"kind": "destination not atomic", "when": when, "after": lastOp, "state": strings.SplitN(n.Content, ":", 2)[0] + fmt.Sprintf("/%o", n.Mode)},
-								map[string]any{"file": rel, "node": n, "trace": trace()})
+						st := stateOf(rel)
+						switch {
+						case st == "new" || st == "previous":
+						case st == "absent" && (!prior || when == "crash"):
+							// a crash may leave a file absent (the statement allows it); an error
+							// return must leave the previous file where it was
+						case st == "absent":
+							violation(map[string]string{"kind": "previous destination file lost", "when": when, "after": lastOp},
+								map[string]any{"file": rel, "trace": trace()})
+						default:
+							violation(map[string]string{"kind": "destination not atomic", "when": when, "after": lastOp, "state": st},
+								map[string]any{"file": rel, "node": m.Effective(dest(rel)), "trace": trace()})
 						}
 					}
 				}
@@ -224,9 +263,8 @@ func checkC15(c *Ctx) error {
 							violation(map[string]string{"kind": "fault-free run fails", "after": lastOp}, map[string]any{"err": symx.ErrID(ret[1]), "trace": trace()})
 						}
 						for _, rel := range tree.rel {
-							n := m.Nodes[dest(rel)]
-							if n == nil || n.Content != "full:"+tree.hash[rel] || n.Mode != 0o644 {
-								violation(map[string]string{"kind": "installation incomplete", "after": lastOp}, map[string]any{"file": rel, "node": n, "trace": trace()})
+							if st := stateOf(rel); st != "new" {
+								violation(map[string]string{"kind": "installation incomplete", "after": lastOp}, map[string]any{"file": rel, "state": st, "trace": trace()})
 							}
 						}
 						for key, n := range m.Nodes {
@@ -236,10 +274,10 @@ func checkC15(c *Ctx) error {
 						}
 					}
 				default:
-					c.Inconclusive(fmt.Sprintf("agent %d base-class %d: path outcome %s", ai, baseClass, r.Outcome))
+					c.Inconclusive(fmt.Sprintf("agent %d base-state %d: path outcome %s", ai, baseState, r.Outcome))
 				}
 				// sample of model paths to be compared with native runs (translator validation)
-				if ai == 0 && baseClass == 0 && (paths%29 == 3 || (!m.Crashed && m.Faulted < 0)) && len(valPoints) < 8 {
+				if ai == 0 && baseClass == 0 && !prior && (paths%29 == 3 || (!m.Crashed && m.Faulted < 0)) && len(valPoints) < 8 {
 					vp := valPoint{crash: cur.crash, fault: cur.fault, short: cur.short, dest: map[string]string{}}
 					for _, rel := range tree.rel {
 						n := m.Nodes[dest(rel)]
@@ -305,13 +343,19 @@ func checkC15(c *Ctx) error {
 	c.Coverage["stub_validation_mismatches"] = mismatches
 	for _, p := range pend {
 		if c.MatchKnown(p.sig) == nil {
-			o, err := replayFS(k, p.crash, p.fault, p.short)
+			o, err := replayFS(k, p.crash, p.fault, p.short, p.prior)
 			confirmed := false
 			if err == nil {
 				switch p.sig["kind"] {
 				case "destination not atomic":
 					for _, s := range o.Dest {
 						if strings.HasPrefix(s, "other") {
+							confirmed = true
+						}
+					}
+				case "previous destination file lost":
+					for _, s := range o.Dest {
+						if s == "absent" {
 							confirmed = true
 						}
 					}
